@@ -62,7 +62,8 @@ def judge(proj, rec, box, cfg, built, expected):
     fired_fail = [o for o in fired if o["fired"].startswith("errno") and fault.phase_of(o) in UPDATE_PHASES]
     states, ids = fault.post_state(proj, box, expected)
     ntok = len(ids)
-    left = fault.tmp_leftovers(box)
+    known = set(os.path.join("proj", r) for r in list(proj.files) + list(proj.extra)) | {"proj/Breadlog.yaml", "proj/Breadlog.lock"}
+    left = sorted(p for p, v in core.snapshot(box.root, content=False).items() if v[0] != "d" and p not in known)
     normal_exit = rec.rc is not None
     if fired_fail and rec.rc == 0:
         o = fired_fail[0]
